@@ -24,11 +24,15 @@ def worker(kp, job):
     kern_only = idx % 3 != 0
     ragged = idx % 10 == 9          # signatures in some spines only: finding K10 (export raises)
     g = docs.gen_doc(rng, kern_only=kern_only, core=not ragged, max_spines=3, measures=rng.randint(1, 5), comments=(idx % 2 == 0),
-                     chords=True, opening_barline=None, final_barline=None, rest_in_chord=0, bboxes=(0.35 if idx % 4 == 3 else 0.0), empty_measures=(0.3 if idx % 5 == 2 else 0.0))
+                     chords=True, opening_barline=None, final_barline=None, rest_in_chord=0, bboxes=(0.35 if idx % 4 == 3 else 0.0), empty_measures=(0.3 if idx % 5 == 2 else 0.0),
+                     blanks=(0.7 if idx % 4 == 1 else 0.08))
     text = g.text
     bad = docs.bad_cells(kp, text)
+    # every fourth document is read from a FILE holding the text (the other line reader), with blank lines in most of them:
+    # the measure index counts stages, and a blank line is no stage
+    via_file = idx % 4 == 1
     try:
-        doc, errs = kp.loads(text)
+        doc, errs = docs.load_text_via_file(kp, text) if via_file else kp.loads(text)
     except Exception as e:
         return {'records': [engine.rec('loads', impl='raise:' + type(e).__name__, req=('import', [C1.join(bad), text]), key=text)]}
     st = {} if kern_only else {'spine_types': ['**kern']}
@@ -151,6 +155,9 @@ def worker(kp, job):
                                   req=docs.model_dumps_req(bad, text, **o), viol=viol, kind='out-of-range', key=(text, str(o2))))
     if idx % 23 == 0 and len(records) > 1:
         records[1]['sample'] = {'text': text, 'range': '1..1', 'export': records[1]['impl'][3:]}
+    if via_file:
+        for r in records:
+            r['viol'] = [(c, m + ' [document read from a file]', dict(w, via='file') if isinstance(w, dict) else w) for c, m, w in r.get('viol') or []]
     return {'records': records}
 
 
@@ -237,6 +244,6 @@ def replay(path):
     print(json.dumps(rec, indent=1)[:2500])
     w = rec.get('witness', {})
     if isinstance(w, dict) and 'text' in w and 'from' in w:
-        doc, errs = kp.loads(w['text'])
+        doc, errs = docs.load_text_via_file(kp, w['text']) if w.get('via') == 'file' else kp.loads(w['text'])
         print(docs.impl_dumps(kp, doc, from_measure=w['from'], to_measure=w['to'], spine_types=['**kern']))
     return 0
